@@ -39,3 +39,16 @@ package grpc
 //@ loop 2 invariant forall(k, 0, len(result), result[k] != nil)
 //@ loop 3 invariant forall(k, 0, len(result), result[k] != nil) && a != nil
 //@ ensures [no-nil-scenario] imp(result1 == nil, forall(k, 0, len(result0), result0[k] != nil))
+
+// The provider of the scenarios decoded from the configured file, with the given limit/passes options; a file that cannot be
+// read or decoded is an error and no provider.
+//@ func NewProvider
+//@ props C08 C13 C15
+//@ ensures [unreadable-description-is-an-error] imp(result_of(config.ReadAmmoConfig, 1) != nil, result1 != nil && result0 == nil && calls(decodeAmmo) == 0)
+//@ ensures [bad-variable-sources-are-an-error] imp(calls(config.ExtractVariableStorage) == 1 && result_of(config.ExtractVariableStorage, 1) != nil, result1 != nil && result0 == nil && calls(decodeAmmo) == 0)
+//@ ensures [undecodable-description-is-an-error] imp(calls(decodeAmmo) == 1 && result_of(decodeAmmo, 1) != nil, result1 != nil && result0 == nil)
+//@ at call config.ReadAmmoConfig assert [the-configured-file] arg(fileName) == conf.File && arg(fs) == fs0
+//@ at call decodeAmmo assert [the-description-and-its-variable-sources] arg(cfg) == result_of(config.ReadAmmoConfig, 0) && arg(storage) == result_of(config.ExtractVariableStorage, 0)
+//@ at call p.SetConfig assert [the-given-bounds] arg(conf) == conf0
+//@ at call p.SetAmmos assert [the-decoded-scenarios] arg(ammos) == result_of(decodeAmmo, 0)
+//@ at call p.SetSink assert [a-new-open-queue] cap(arg(sink)) == 100 && !closed(arg(sink)) && sent(arg(sink)) == 0
